@@ -19,6 +19,13 @@ def add(ctx, res, tag):
                 if r.get('repeated'):
                     # finding F9 of the pinned tree: the hash-by-value functions of the REQUESTED entry run twice (once for the entry's hash in the
                     # outer graph, once inside the column's own graph); anything beyond that - other ids of the shard, three runs - is new
+                    if c.get('two_columns'):
+                        # finding F10: the function both columns share runs once per column (twice), for the ids of the shard; nothing else repeats
+                        f10 = all(cnt == 2 and e.startswith('["s000"') for e, cnt in r['repeated'])
+                        extra.append({'signature': 'F10:cached-columns-recompute-what-they-share' if f10 else 'oracle:double-evaluation',
+                                      'case': {'spec': c['spec'], 'field': c['field'], 'key': r['key']}, 'observed': r['repeated'],
+                                      'what': f'{tag}: two cached columns asked for together, case {i}: {r["repeated"][:2]}'})
+                        continue
                     others = [i for i in c['ids'] if i != r['key']]
                     f9 = all(cnt == 2 and json.dumps({'s': r['key']}) in e and not any(json.dumps({'s': o}) in e for o in others) for e, cnt in r['repeated'])
                     extra.append({'signature': 'F9:column-cache-runs-by-value-functions-of-the-requested-entry-twice' if f9 else 'oracle:double-evaluation', 'case': {'spec': c['spec'], 'field': c['field'], 'key': r['key']}, 'observed': r['repeated'],
